@@ -35,7 +35,19 @@ Fixpoint listN_eqb (a b : list N) : bool :=
    its client while being taken over, or gone before the CONNACK could be written) — they are left
    out on both sides. *)
 Record stepobs := mkStep { sev : ev; sobs : list oobs; srace : list ev; sign : N }.
-Record case := mkCase { pre : bool; steps : list stepobs; ran : bool }.
+(* listener-level shutdown (C20): connections of the kinds 0 TCP established | 1 TCP connected, nothing sent |
+   2 WebSocket established | 3 WebSocket upgraded, nothing sent; observed: Shutdown returned, per connection
+   closed?, a listener port still accepts, a CONNECT sent on a handshake-stage connection AFTER Shutdown has
+   returned was answered with CONNACK *)
+Record lcase := mkLis { lconns : list N; lreturned : bool; lclosed : list bool; laccepts : bool; llate : bool }.
+(* what shutdown means for listeners and for every connection, whatever its stage: the model closes all *)
+Definition lstop (conns : list N) : list bool * bool := (map (fun _ => true) conns, false).
+Fixpoint bools_eqb (a b : list bool) : bool :=
+  match a, b with [], [] => true | x :: a', y :: b' => Bool.eqb x y && bools_eqb a' b' | _, _ => false end.
+Definition lcase_ok (l : lcase) : bool :=
+  lreturned l && bools_eqb (lclosed l) (fst (lstop (lconns l))) && Bool.eqb (laccepts l) (snd (lstop (lconns l))) && negb (llate l).
+
+Record case := mkCase { pre : bool; steps : list stepobs; ran : bool; lis : option lcase }.
 
 Fixpoint inserts {A} (x : A) (l : list A) : list (list A) :=
   match l with [] => [[x]] | y :: r => (x :: l) :: map (cons y) (inserts x r) end.
@@ -65,7 +77,8 @@ Fixpoint check (cands : list st) (ss : list stepobs) : bool :=
   | x :: r => match nexts cands x with [] => false | n => check n r end
   end.
 
-Definition case_ok (c : case) : bool := ran c && check [init (pre c)] (steps c).
+Definition case_ok (c : case) : bool :=
+  ran c && match lis c with Some l => lcase_ok l | None => check [init (pre c)] (steps c) end.
 
 Fixpoint mismatches_from (i : nat) (cs : list case) : list nat :=
   match cs with
